@@ -25,9 +25,13 @@ TV      (a) every rendering is sent back as {text, abstract lines} and Present!L
         "file" + replay so that the finding key is computed in one place.
 
         (c) `zone follow`: every record text of harness/lib/zoo (77 RR types) in first / second (owner omitted) / third (TTL omitted)
-        position of a three-record zone, in 9 spellings of the record bodies (plain, trailing comment, trailing blanks, CRLF,
+        position of a three-record zone, in 11 spellings of the record bodies (plain, trailing comment, trailing blanks, CRLF,
         RDATA in parentheses over two lines, broken inside the parentheses without / with a comment, RFC 3597 \\# form, no final
-        line end): per-line events judged by Zone.tla (RDATA opaque: the octets of the record parsed alone); dns.NewRR of the
+        line end, every KEYWORD in lower case, every keyword Capitalised -- class, type, and the type mnemonics inside the RDATA:
+        members of the type bit maps of NSEC / NSEC3 / CSYNC / NXT and the type covered of RRSIG / SIG, found through the
+        library's struct tags; next to the zoo the family holds bit maps naming EVERY mnemonic of dns.TypeToString and an
+        RRSIG / SIG for every mnemonic with a digit or a hyphen; the case of algorithm / certificate-type mnemonics is AMBIG and
+        not demanded): per-line events judged by Zone.tla (RDATA opaque: the octets of the record parsed alone); dns.NewRR of the
         single record with and without final line end and dns.ReadRR of the zone checked by the harness.
 
         The same mode also spells every RDATA item that is the value of a field the library tags as a domain name (34 fields
@@ -62,6 +66,13 @@ C06-11 (include depth counted per $INCLUDE performed, not per nesting level) GEN
 the top level / inside an included file / at depth 2, plus nesting chains (zone/rejects:include).
 C06-8 (owner token cached across $ORIGIN) GEN idx: the family (rr X)(directive)(rr X') of same-spelled owners, canonical / noisy
 spellings (zone/rr:owner); also the owner-repeating bias of the random sequences and of record mode.
+
+C06-19 (toAbsoluteName measures the completed name by the length of its TEXT) GEN "file" cases longnames(): labels of 63 and names of
+up to 255 octets whose octets have to be written as escapes (\\DDD, \\.), relative / @ / absolute, as owner, RDATA name, $ORIGIN argument,
+$INCLUDE origin argument and under a long initial origin, next to the same shapes in plain letters (zone/rejects:rr, :origin, :include).
+C06-20 (upper-casing of mnemonics destroys digits and '-' after the first lower-case letter) TV follow, spellings lower / capital:
+zone/newrr:<TYPE>:lower, zone/rr:follow:<TYPE>:capital ... for NSEC3, NSEC3PARAM, EUI48, X25, L32, NSAP-PTR, ... and for the bit maps /
+type covered that name them.
 
 Findings on the unchanged tree: known-findings.d/C06.txt.
 """
@@ -193,6 +204,52 @@ def siblings(full):
         files = [("c%d" % k, [inc("c%d" % (k + 1)), rr(ref("rel", "c%dend" % k), 5, 1, ip=[10, 6, 0, k])]) for k in range(1, d)]
         files.append(("c%d" % d, [rr(ref("rel", "leaf"), 5, 1, ip=[10, 6, 0, d])]))
         cases.append({"cfg": cfg(files + leaves[:3]), "lines": [inc("c1"), inc("s0"), inc("s1"), inc("s2"), rr(ref("rel", "after"), 5, 1, ip=[10, 4, 0, 0])]})
+    return cases
+
+
+def BL(octets):
+    return list(octets)
+
+
+def lref(kind, *labels):
+    """a name reference whose labels are given as octet lists"""
+    return {"k": kind, "n": [list(l) for l in labels]}
+
+
+def longnames(full):
+    """Names whose TEXT is much longer than their octets: labels made of octets that have to be written as escapes (\\DDD: four
+    characters an octet; \\. \\; \\( : two), up to the longest label (63) and the longest name (255 octets once completed) -- in every
+    place where a name is completed with the origin: owner, RDATA name of NS / CNAME / MX, the argument of $ORIGIN, the origin
+    argument of $INCLUDE, the parser's initial origin; relative, @ and (the spec's rewriting) absolute.  The limits of RFC 1035 count
+    octets of the name, not characters of its spelling.  Neighbours: the same shapes in plain letters, where text length + 1 = octets
+    (254 characters = 255 octets, the longest name there is).  Names that pass 255 octets once completed are not part of this
+    universe (the pinned parser validates the relative part only; see c07.py)."""
+    def lab(c, n):
+        return [c] * n
+
+    def a(owner, d):
+        return rr(owner, 5, 1, ip=[10, 7, 0, d])
+    cases = []
+    # (not ; ( ) " \\ or the blank: an owner written only with those escapes trips the lexer slip on record as zone/rejects:rr:no-blank-after-owner)
+    for c in ((0xE9, 0x2E, 0x61, 0x00, 0x40, 0x24) if full else (0xE9, 0x2E)):
+        L63, L53, L1 = lab(c, 63), lab(c, 53), lab(c, 1)
+        fits = [L63, L63, L63, L53]                 # + example. = 4 + 63 * 3 + 53 + 8 + 1 = 255 octets
+        near = [L63, L63, L63, L53[:-1]]            # 254
+        for nm in (([L63], [L63, L63], [L63, L63, L63], near, fits) if full else ([L63], [L63, L63, L63], fits)):
+            owner = lref("rel", *nm)
+            cases.append({"cfg": cfg(), "lines": [a(owner, 1), a(ref("omit"), 2), rr(ref("rel", "x"), 5, 2, nm=owner), rr(ref("rel", "y"), 5, 15, pref=10, nm=owner),
+                                                  rr(owner, 5, 5, nm=owner)]})
+        # the origin grows: $ORIGIN <relative, escaped>, then @ and relative names under it; back with an absolute $ORIGIN
+        cases.append({"cfg": cfg(), "lines": [{"k": "origin", "name": lref("rel", L63, L63)}, a(ref("at"), 1), a(lref("rel", L63), 2), rr(lref("rel", L1), 5, 2, nm=ref("at")),
+                                              rr(ref("rel", "m"), 5, 15, pref=1, nm=lref("rel", L63, L53)),
+                                              {"k": "origin", "name": ref("abs", "example")}, a(lref("rel", L63), 3)]})
+        # $INCLUDE under an origin argument that is relative and escaped; the includer's origin is unchanged afterwards
+        inc = [a(ref("at"), 4), a(lref("rel", L63), 5), rr(ref("rel", "n"), 5, 2, nm=lref("rel", L63, L53))]
+        cases.append({"cfg": cfg([("f1", inc)]), "lines": [{"k": "include", "file": B("f1"), "origin": lref("rel", L63, L63)}, a(lref("rel", L63, L63, L63), 6)]})
+        # the parser's initial origin is the long one
+        c2 = cfg()
+        c2["origin"] = {"set": True, "n": [L63, L63, L63]}
+        cases.append({"cfg": c2, "lines": [a(lref("rel", L53), 7), a(ref("at"), 8), rr(lref("rel", L1), 5, 5, nm=lref("rel", L53[:-1]))]})
     return cases
 
 
@@ -371,7 +428,7 @@ def run(ctx):
             G("idx", 0, 1, [0], cases=idx),                 # seeded random sequences of 4..7 lines
             G("gen", 0, 1, [0]),
             G("tree", 2, 1, [0]),                           # include trees with directories and decoys, FS and os file system
-            G("file", 0, 1, [0], cases=QUIRKS + siblings(False)),
+            G("file", 0, 1, [0], cases=QUIRKS + siblings(False) + longnames(False)),
         ], maxpar=6)
         vp.parallel([lambda: spell_tv(ctx, spells), lambda: record_tv(ctx, binp, 50, 3, par=3), lambda: follow_tv(ctx, binp)])
     else:
@@ -382,7 +439,7 @@ def run(ctx):
             lambda: ctx.tlc("MC_Zone", consts=dict(MaxLines=2, ShapeSet=ALL_SHAPES, PolSet="{0, 15, 9, 6}"), workers=2, timeout=6000),            # 40 k states
             lambda: ctx.tlc("MC_Zone", consts=dict(MaxLines=6, ShapeSet=ALL_SHAPES, PolSet="{0, 15, 9, 6}"), workers=2, timeout=1800,
                             simulate="num=30", depth=7),        # longer random behaviours
-            G("gen", 0, 1, [0]), G("tree", 3, 1, [0]), G("file", 0, 1, [0], cases=QUIRKS + siblings(True)),
+            G("gen", 0, 1, [0]), G("tree", 3, 1, [0]), G("file", 0, 1, [0], cases=QUIRKS + siblings(True) + longnames(True)),
         ]
         jobs += [G("seq", 2, 4, [k]) for k in range(4)]
         jobs += [G("seq", 3, 32, [k]) for k in rnd.sample(range(32), 8)]      # 1/4 of the 8 x 42^3
